@@ -414,3 +414,18 @@ Definition process (m : mode) (c : cmd) (d : db) (s : pst) : out db :=
 (* bibtex.py:385-405 Parser.parse_string(text) with a fresh Parser() *)
 Definition parse_bib (m : mode) (text : str) : out db :=
   bib_loop process (S (length text)) m db_init (pst_init text month_macros).
+
+(* one Parser instance reading several strings one after the other (bibtex.py:385-405 called
+   repeatedly): self.macros and self.data persist, unnamed_entry_counter restarts at 1;
+   the reported errors accumulate (one capture() around all the calls) *)
+Fixpoint parse_bib_seq (m : mode) (texts : list str) (d : db) (macros : list (str * str)) (errs : list err)
+  : out db :=
+  match texts with
+  | [] => Ret d (mkP (sc_init []) macros errs None [] None [] 0)
+  | [t] => bib_loop process (S (length t)) m (mkDb (db_entries d) (db_preamble d) 1 (db_mark d))
+                    (mkP (sc_init t) macros errs None [] None [] 0)
+  | t :: r =>
+    bib_loop process (S (length t)) m (mkDb (db_entries d) (db_preamble d) 1 (db_mark d))
+             (mkP (sc_init t) macros errs None [] None [] 0) >>= fun d' s' =>
+    parse_bib_seq m r d' (p_macros s') (p_errs s')
+  end.
